@@ -122,7 +122,7 @@ theorem evict_shard_ok (L : Lawful P Ok) (target : Nat) {s : Shard σ} (h : Shar
 theorem step_inv (L : Lawful P Ok) {cfg : Cfg} (hn : 0 < cfg.nshards) {c : Cache σ}
     (hc : CacheInv P Ok cfg c) (op : Op) : CacheInv P Ok cfg (Cache.step P cfg c op).1 := by
   cases op with
-  | ins key ver weight hint phantom =>
+  | ins key ver weight hint phantom loc age =>
     simp only [Cache.step]
     split
     · exact hc
@@ -133,14 +133,14 @@ theorem step_inv (L : Lawful P Ok) {cfg : Cfg} (hn : 0 < cfg.nshards) {c : Cache
       have hfr := hc.fresh _ s hs
       cases hp : phantom with
       | true =>
-        have sp := emplace_phantom_spec (r := { id := c.nextId, key, hash := cfg.H key, ver, weight, hint, phantom := true }) L hsi rfl
+        have sp := emplace_phantom_spec (r := { id := c.nextId, key, hash := cfg.H key, ver, weight, hint, phantom := true, loc, age }) L hsi rfl
         obtain ⟨_, hinv, _, hsub, _, _, _⟩ := sp
         generalize Shard.emplace P s _ = res at hinv hsub
         obtain ⟨s', lv, pk⟩ := res
         exact inv_setAt hc hs hinv (fun r hr => hplaced r (hsub r hr)) (Nat.le_succ _)
           (fun r hr => Nat.lt_succ_of_lt (hfr r (hsub r hr))) (fun r hr => hc.real _ s hs r (hsub r hr)) _
       | false =>
-        have sp := emplace_spec (r := { id := c.nextId, key, hash := cfg.H key, ver, weight, hint, phantom := false }) L hsi rfl
+        have sp := emplace_spec (r := { id := c.nextId, key, hash := cfg.H key, ver, weight, hint, phantom := false, loc, age }) L hsi rfl
           (fun x hx => Nat.ne_of_lt (hfr x hx))
         generalize Shard.emplace P s _ = res at sp
         obtain ⟨s', lv, pk⟩ := res
